@@ -172,6 +172,8 @@ qf_insert_harness!(c13_qf_insert_b1r2_f3, 2, 4, 1, 2, 3, 6);
 qf_insert_harness!(c13_qf_insert_b1r2_f5, 2, 4, 1, 2, 5, 6);
 qf_insert_harness!(c13_qf_insert_b1r2_f6, 2, 4, 1, 2, 6, 6);
 
+// (8-slot tables: even single concrete states with a symbolic fingerprint exhaust a 25 min CBMC budget -- not pursued)
+
 // new() == enc(empty)
 harness! {
     #[kani::unwind(10)]
